@@ -39,6 +39,7 @@ EXPLANATION = (
   ' (LINT-l) no tuple / list / set display of the anchored modules lists the same computed component twice and no dict display repeats a key (a key or fingerprint built that way cannot tell apart what the missing component would have);'
   ' (STATE-share) no assignment stores a container field of one object (a field the package updates in place) into a field of another object without copying it, so an in-place update of one object never changes another;'
   " (ITEM-source) an object built once per item of an inner loop is filled only with values that derive from that item or do not vary with the loops, never with a value of the enclosing container standing where the item's own belongs;"
+  " (NUL-optarg) a field that a record of the package fills from an Optional constructor parameter (the annotation of a WebVTT start tag, ...) is passed to a function only under a None test, or to a function that neither dereferences that parameter unguarded nor rejects a non-instance with an exception;"
   " (NUL-arg) the result of a getter that returns None for a missing entry (get_style, get_initial_value, ...) is never passed straight into a function that dereferences that parameter without a None test, unless the key is drawn from the same container's own keys;"
   " (FIN-resume) the codec error handler of the STL reader, evaluated on the ranges the package's decoders report (including a two-byte range that ends past the buffer), returns the resume position error.end and does not fail;"
   ' (COND-supported) as in C07: under every option assignment the properties the cue writers read are kept by the whitelist built for that assignment, so no read yields an unexpected None;'
@@ -325,6 +326,7 @@ def run(ctx):
   common.check_numeric_fields(ctx, list(ctx.ix.modules))
   common.check_nullable_args(ctx, MODS)
   common.check_known_none(ctx, MODS)
+  common.check_optional_field_args(ctx, MODS)
   common.check_parsed_divisors(ctx, ["ttconv.stl.reader", "ttconv.stl.datafile", "ttconv.stl.tf"], floor=3)
   c04.check_reference_recursion(ctx)
   common.check_history_independence(ctx, MODS)
